@@ -116,7 +116,8 @@ def run(ctx):
     # every MutableMapping entry point x hostile ids / data: whatever the API lets into a header must still serialise
     # to a well-framed block that re-loads (on the pinned tree all of these are rejected with HeaderError)
     hostile = [("KSN", "1"), ("T", "12"), ("K_", "123"), ("", "x"), ("ab", "\x7f"), ("a b", ""), ("KS", "\x1f"),
-               ("K\u0660", "1"), ("\uff21\uff22", "x"), ("T1", "caf\xe9"), ("T2", "tab\t"), ("ks", " ok "), ("Z9", "~}|")]
+               ("K\u0660", "1"), ("\uff21\uff22", "x"), ("T1", "caf\xe9"), ("T2", "tab\t"), ("ks", " ok "), ("Z9", "~}|"),
+               ("T3", "abc\n"), ("K\n", "1"), ("T4", "\nabc"), ("T5", "a\r"), ("T6", "abc\n\n"), ("\nK", "x"), ("T7", "\n")]
     for v in "ABCD":
         for style in range(5):
             for bid, data in hostile:
@@ -151,6 +152,34 @@ def run(ctx):
                     viol.append({"what": "a header built through the mapping API serialises to an ill-framed block: " + "; ".join(errs),
                                  "input": {"version": v, "id": bid, "data": data, "entry_point_style": style, "insertion": ins},
                                  "expected": "framing rules", "observed": kbt[:100]})
+    # the same hostile ids / data arriving through Header.load (a header string from a file or a peer)
+    for v in "ABCD":
+        for bid, data in hostile:
+            if len(bid) != 2:
+                continue
+            c = t.gen_case(rng, version=v, profile="none", keylen=16, mask=None, algorithm="T")
+            hs = c["hdr16"][:12] + "01" + c["hdr16"][14:16] + bid + "%02X" % (len(data) + 4) + data
+            h = tr31.Header()
+            try:
+                h.load(hs)
+                ins = "accepted"
+            except Exception as e:  # noqa: BLE001
+                ins = core.bucket(e)
+            dist["load_hostile:" + ins] = dist.get("load_hostile:" + ins, 0) + 1
+            if ins not in ("accepted", "PsecError"):
+                viol.append({"what": "Header.load raised a foreign exception", "input": {"header": hs}, "expected": "HeaderError or accepted", "observed": ins})
+            if ins != "accepted":
+                continue
+            try:
+                kbt = tr31.wrap(c["kbpk"], h, c["key"])
+            except Exception:  # noqa: BLE001
+                continue
+            c2 = dict(c)
+            c2["blocks"] = list(dict(h.blocks).items())
+            errs = framing_errors(c2, kbt)
+            if errs:
+                viol.append({"what": "a loaded header string serialises to an ill-framed block: " + "; ".join(errs),
+                             "input": {"version": v, "header": hs}, "expected": "framing rules", "observed": kbt[:100]})
     # header strings written by ANOTHER implementation (pad block first / in the middle / in extended form / with a
     # non-zero filler, extended lengths everywhere) given to wrap: what psec emits must again be well-framed, with the
     # header's data blocks in order and at most one trailing pad block
